@@ -151,7 +151,7 @@ def main():
             rep.violation({"layer": "edit-trace", "edit": rec["edit"]["k"],
                            "verdict": "dangling" if dangling else "unsound-image"},
                           {"context": rec["ctx"], "edit": rec["edit"], "tree": rec["tree"], "tlc": v,
-                           "example": (dangling or [rec["fw"][v["first"] - 1] if v["first"] else None])[0]})
+                           "example": (dangling or [rec["fw"][v["ifirst"] - 1] if v.get("ifirst") else None])[0]})
         elif not v["tree"] or v["fwd"] or v["sound"]:
             n_dev += 1  # the code's step is sound but is not the spec's step: a deviation of the model, reported as such
             rep.notes.append({"edit-trace deviation": rec["ctx"], "edit": rec["edit"]["k"], "tlc": v}) if n_dev <= 5 else None
